@@ -119,7 +119,11 @@ def _run_case(case, work, nproc_runs):
         m = re.search(r"not up to date: (.*)", se)
         m2 = re.search(r'failed to read "([^"]*)"', se)
         if m:
-            k = "not-up-to-date:" + _kind(m.group(1).strip())
+            # the checking process is one more generation whose bytes differ from the first one's
+            res["violations"].append(("%s:nondeterministic:%s" % (case["backend"], _kind(m.group(1).strip())),
+                                      "`--check` right after generating into the same directory reports %s" % m.group(0)[:300]))
+            shutil.rmtree(work, ignore_errors=True)
+            return res
         elif m2:
             k = "missing:" + (".template" if m2.group(1).endswith(".template") else _kind(m2.group(1)))
         elif "differs only in line endings" in se:
@@ -170,7 +174,7 @@ def run(tier, seed, replay):
                           "world": r.get("world"), "key": "replay", "input": r.get("input", "replay")})
             nruns = 8
         else:
-            n_random = 500 if thorough else 16
+            n_random = 400 if thorough else 12
             wdir = os.path.join(scratch, "worlds")
             idx_p = os.path.join(scratch, "worlds.json")
             _tool(bindir, ["worlds", "--seed", str(seed), "--n", str(n_random), "--profile", "large", "--dir", wdir, "--out", idx_p],
